@@ -34,14 +34,22 @@ BUFFER_WRITERS = {
 }
 
 
-def check(run):
+def close_resets_rule(run):
+    """R7 tcp::socket::close(ec) resets every session field on every normal path (shared with C07: a socket object reused
+    for a second connection must start from the state of a fresh one, otherwise the new pair does not exchange data)."""
     fx = run.fx
-    run.clause('R7 tcp::socket::close(ec) resets every session field on every normal path')
     close = fx.fn1(T + '::close', '(boost::system::error_code &)')
     fields = engines.class_fields(fx, [T, B], spec_hint='tcp')
     if len(fields) < 30:
         run.broke('tcp::socket + socket_base expose only %d fields (33 confirmed by hand)' % len(fields))
     engines.r7_coverage(run, close, fields, PERSISTENT, {T, B, A}, aliases={'m_user_bound_to': B + '::m_bound_to'})
+    return close
+
+
+def check(run):
+    fx = run.fx
+    run.clause('R7 tcp::socket::close(ec) resets every session field on every normal path')
+    close = close_resets_rule(run)
     engines.co_written(run, (B + '::m_bound_to', B + '::m_user_bound_to'))
     # the accepted-into socket is re-initialised: internal_connect -> open -> close
     ic = fx.fn1(T + '::internal_connect')
